@@ -46,10 +46,12 @@ var asgSwaps = map[token.Token][]string{
 }
 
 var extra bool
+var swapMode bool
 
 func main() {
 	root := os.Args[1]
 	extra = len(os.Args) > 2 && os.Args[2] == "extra"
+	swapMode = len(os.Args) > 2 && os.Args[2] == "swap"
 	var files []string
 	filepath.Walk(filepath.Join(root, "knx"), func(p string, info os.FileInfo, err error) error {
 		if err == nil && !info.IsDir() && strings.HasSuffix(p, ".go") && !strings.HasSuffix(p, "_test.go") {
@@ -73,7 +75,10 @@ func main() {
 		var cur string
 		emit := func(pos token.Pos, n int, op, nw string) {
 			isExtra := op == "swap args" || op == "swap fields" || op == "empty if body"
-			if extra != isExtra {
+			if swapMode != (op == "swap stmts") {
+				return
+			}
+			if !swapMode && extra != isExtra {
 				return
 			}
 			off := tf.Offset(pos)
@@ -209,6 +214,22 @@ func main() {
 						}
 					}
 				case *ast.BlockStmt:
+					if swapMode {
+						simple := func(st ast.Stmt) bool {
+							switch st.(type) {
+							case *ast.ExprStmt, *ast.AssignStmt, *ast.IncDecStmt, *ast.SendStmt, *ast.DeferStmt, *ast.GoStmt:
+								return true
+							}
+							return false
+						}
+						for i := 0; i+1 < len(x.List); i++ {
+							a, b := x.List[i], x.List[i+1]
+							if simple(a) && simple(b) {
+								// keep := definitions in front of their uses: swapping them rarely compiles anyway
+								emit(a.Pos(), int(b.End()-a.Pos()), "swap stmts", text(b)+"\n"+text(a))
+							}
+						}
+					}
 					if extra && len(x.List) > 0 {
 						if _, isIf := parentIf[x]; isIf {
 							emit(x.List[0].Pos(), int(x.List[len(x.List)-1].End()-x.List[0].Pos()), "empty if body", "")
